@@ -80,3 +80,26 @@ Definition dedup (l : list bytes) : list bytes :=
 
 Definition spec_accounts (r : rule) (listing : list (bytes * bool)) : list bytes :=
   dedup (spec_matches r listing).
+
+(* the password that opens a key: the key's own password file (named by the extension rule or by the
+   metadata) when it can be read, otherwise the default password file; white space is trimmed from
+   whichever file is used exactly when trimming is configured.  [readfile] is the file system,
+   [trim_space] the trimming function, an empty [pwfile] / [dflt] means "none configured". *)
+Definition spec_password (readfile : bytes -> res bytes) (trim : bool) (trim_space : bytes -> bytes)
+           (pwfile dflt : bytes) : option bytes :=
+  let t := fun p => if trim then trim_space p else p in
+  let own := if bytes_eqb pwfile [] then None
+             else match readfile pwfile with Ok p => Some p | _ => None end in
+  match own with
+  | Some p => Some (t p)
+  | None => if bytes_eqb dflt [] then None
+            else match readfile dflt with Ok p => Some (t p) | _ => None end
+  end.
+
+(* the regular file of a listing that backs an address: the last one whose name names it *)
+Definition backing (r : rule) (listing : list (bytes * bool)) (a : bytes) (init : option bytes) : option bytes :=
+  fold_left (fun acc f => if (snd f : bool) then acc
+                          else match name_address r (fst f) with
+                               | Some a' => if bytes_eqb a' a then Some (fst f) else acc
+                               | None => acc
+                               end) listing init.
